@@ -26,6 +26,8 @@ def synth_arg(name, ann, variant):
             async def cb(*a, **k):
                 if variant == 3:
                     raise RuntimeError("the application's handler failed")
+                if variant == 4:
+                    await asyncio.get_running_loop().create_future()     # still busy when the subscription is dropped
                 return 4242 if ("int" in s and variant != 2) else None
             return cb
         return lambda *a, **k: None
@@ -70,6 +72,7 @@ async def sweep_method(loop, net, mname, variant):
     """Call one public method on a fresh connected client; return (sent ids, subscribed class names, outcome)."""
     from aioesphomeapi import api_pb2 as pb
     cli, tr = await simnet.connected_client(loop, net, api=(1, 10 if variant else 0))
+    variant_cb = variant
     loop.set_exception_handler(lambda l, ctx: None)      # a failing application handler is reported to the loop: not what is observed here
     conn = cli._connection
     before_handlers = {k: set(v) for k, v in conn._message_handlers.items()}
@@ -296,7 +299,7 @@ def run(rep, tier, seed):
         if mname in skip:
             continue
         has_coro_cb = "Coroutine" in str(inspect.signature(getattr(APIClient, mname)))
-        for variant in ((0, 1, 2, 3) if has_coro_cb else (0, 1)):     # 2 / 3: asynchronous handlers return nothing / raise
+        for variant in ((0, 1, 2, 3, 4) if has_coro_cb else (0, 1)):     # 2 / 3 / 4: asynchronous handlers return nothing / raise / are still running at unsubscribe
             def go(loop, mname=mname, variant=variant):
                 net = simnet.Net(loop)
 
